@@ -62,6 +62,7 @@ JOBS["session"] = dict(module="MC_Session", constants=dict(Slice="session", Dept
 
 TIMER_INV = ["NoFalseTimeout", "RealAnswers", "FastUndisturbed", "NoLateFire", "CancelReturns", "Emit"]
 JOBS["timer"] = dict(module="MC_Timer", constants=dict(Slice="timer", NQ=2, GenerationFix="TRUE"), invariants=TIMER_INV,
+                     spec="FairSpec", properties=["EveryQueryReports"],
                      timeout={"quick": 600, "thorough": 1800}, workers=4)
 JOBS["timer3"] = dict(module="MC_Timer", constants=dict(Slice="timer", NQ=3, GenerationFix="TRUE"), invariants=TIMER_INV,
                       timeout={"quick": 600, "thorough": 1800}, workers=8, tiers=("thorough",))
